@@ -162,7 +162,7 @@ CONF_UPDATE_HOOK(iauth_class_conf_changed)
         if (str)
             rule->account = xstrdup(str->value);
         str = conf_get_child(obj, "address", CONF_STRING);
-        if (str)
+        if (str && str->value)
             irc_pton(&rule->address, &rule->address_bits, str->value, 0);
         str = conf_get_child(obj, "username", CONF_STRING);
         if (str)
@@ -174,7 +174,7 @@ CONF_UPDATE_HOOK(iauth_class_conf_changed)
         if (str)
             rule->xreply_ok = xstrdup(str->value);
         str = conf_get_child(obj, "trust_username", CONF_STRING);
-        if (str)
+        if (str && str->value)
             rule->trust_username = conf_parse_boolean(str->value, 0);
 
         /* Increment the number of rules in the new set. */
